@@ -98,7 +98,7 @@ func Glob(pattern string) ([]string, error) {
 					} else {
 						p += name
 					}
-					if _, err := os.Lstat(p); err == nil {
+					if exists(p, sep != "") {
 						matches = append(matches, p+sep)
 					}
 				}
@@ -113,7 +113,9 @@ func Glob(pattern string) ([]string, error) {
 						if p != "." {
 							name = p + name
 						}
-						matches = append(matches, name+sep)
+						if sep == "" || exists(name, true) {
+							matches = append(matches, name+sep)
+						}
 					})
 					if err != nil {
 						return nil, err
@@ -135,6 +137,17 @@ func Glob(pattern string) ([]string, error) {
 		pattern = pattern[i+w:]
 	}
 	return paths, nil
+}
+
+// exists reports whether the path exists. If dir is true, it must also
+// be a directory.
+func exists(path string, dir bool) bool {
+	if dir {
+		fi, err := os.Stat(path)
+		return err == nil && fi.IsDir()
+	}
+	_, err := os.Lstat(path)
+	return err == nil
 }
 
 func glob(path string, rx *regexp.Regexp, fn func(string)) error {
